@@ -72,3 +72,29 @@ Definition C14_ok (m : module) (o : out) : bool :=
   && forallb2 (vertex_ok m) (of_stage Vertex m) (o_ventries o)
   && Bool.eqb (o_vertex_tpl o) (nonempty (of_stage Vertex m))
   && Bool.eqb (o_fragment_tpl o) (nonempty (of_stage Fragment m)).
+
+(** ** The statement over what the helpers do ([Spec/Obs.v]) *)
+(** names / snake-case names of the struct parameters of an entry point, in parameter order *)
+Definition struct_param_tys (m : module) (f : func) : list ty :=
+  flat_map (fun a => match a_binding a, get_ty m (a_ty a) with
+                     | None, Some t => match t_inner t with TStruct _ _ => [t] | _ => [] end
+                     | _, _ => []
+                     end) (f_args f).
+Definition opt_str (o : option string) : string := match o with Some s => s | None => "" end.
+Definition struct_param_names (m : module) (f : func) : list string := map (fun t => opt_str (t_name t)) (struct_param_tys m f).
+Definition struct_param_snakes (m : module) (f : func) : list string := map (fun t => opt_str (t_snake t)) (struct_param_tys m f).
+
+Fixpoint enumerate (l : list string) (i : N) : list (string * N) :=
+  match l with [] => [] | x :: t => (x, i) :: enumerate t (i + 1) end.
+
+Fixpoint str_distinct (l : list string) : bool :=
+  match l with
+  | [] => true
+  | x :: t => negb (existsb (String.eqb x) t) && str_distinct t
+  end.
+
+(** no two entry points have names equal up to case (the exported constants would clash: a listed finding of C01) *)
+Definition entry_consts_distinct (m : module) : bool := str_distinct (map e_upper (entries m)).
+(** no vertex entry takes two struct parameters whose snake-case names coincide (two parameters of one name) *)
+Definition vertex_params_distinct (m : module) : bool :=
+  forallb (fun e => str_distinct (struct_param_snakes m (e_fn e))) (of_stage Vertex m).
